@@ -694,3 +694,126 @@ impl gmsol_utils::InitSpace for GtExchange {
 impl Seed for GtExchange {
     const SEED: &'static [u8] = b"gt_exchange";
 }
+
+/// Verification hooks (add-only, compiled only with `--cfg gmsol_verif`).
+#[cfg(gmsol_verif)]
+pub mod verif {
+    use super::*;
+
+    /// [`GtState::init`].
+    pub fn init(
+        gt: &mut GtState,
+        decimals: u8,
+        initial_minting_cost: u128,
+        grow_factor: u128,
+        grow_step: u64,
+        ranks: &[u64],
+    ) -> Result<()> {
+        gt.init(decimals, initial_minting_cost, grow_factor, grow_step, ranks)
+    }
+
+    /// [`GtState::set_order_fee_discount_factors`].
+    pub fn set_order_fee_discount_factors(gt: &mut GtState, factors: &[u128]) -> Result<()> {
+        gt.set_order_fee_discount_factors(factors)
+    }
+
+    /// [`GtState::set_referral_reward_factors`].
+    pub fn set_referral_reward_factors(gt: &mut GtState, factors: &[u128]) -> Result<()> {
+        gt.set_referral_reward_factors(factors)
+    }
+
+    /// [`GtState::order_fee_discount_factor`].
+    pub fn order_fee_discount_factor(gt: &GtState, rank: u8) -> Result<u128> {
+        gt.order_fee_discount_factor(rank)
+    }
+
+    /// [`GtState::referral_reward_factor`].
+    pub fn referral_reward_factor(gt: &GtState, rank: u8) -> Result<u128> {
+        gt.referral_reward_factor(rank)
+    }
+
+    /// `GtState::next_minting_cost`.
+    pub fn next_minting_cost(gt: &GtState, next_minted: u64) -> Result<Option<(u64, u128)>> {
+        gt.next_minting_cost(next_minted)
+    }
+
+    /// [`GtState::mint_to`].
+    pub fn mint_to(gt: &mut GtState, user: &mut UserHeader, amount: u64) -> Result<()> {
+        gt.mint_to(user, amount)
+    }
+
+    /// [`GtState::unchecked_burn_from`].
+    pub fn unchecked_burn_from(gt: &mut GtState, user: &mut UserHeader, amount: u64) -> Result<()> {
+        gt.unchecked_burn_from(user, amount)
+    }
+
+    /// [`GtState::get_mint_amount`].
+    pub fn get_mint_amount(gt: &GtState, size_in_value: u128) -> Result<(u64, u128, u128)> {
+        gt.get_mint_amount(size_in_value)
+    }
+
+    /// [`GtState::ranks`].
+    pub fn ranks(gt: &GtState) -> &[u64] {
+        gt.ranks()
+    }
+
+    /// `GtState::unchecked_update_rank`.
+    pub fn unchecked_update_rank(gt: &GtState, user: &mut UserHeader) {
+        gt.unchecked_update_rank(user)
+    }
+
+    /// [`GtState::update_cumulative_inv_cost_factor`].
+    pub fn update_cumulative_inv_cost_factor(gt: &mut GtState) -> Result<()> {
+        gt.update_cumulative_inv_cost_factor()
+    }
+
+    /// [`GtState::cumulative_inv_cost_factor`].
+    pub fn cumulative_inv_cost_factor(gt: &GtState) -> u128 {
+        gt.cumulative_inv_cost_factor()
+    }
+
+    /// Read `last_minted_at`.
+    pub fn last_minted_at(gt: &GtState) -> i64 {
+        gt.last_minted_at
+    }
+
+    /// [`GtState::unchecked_request_exchange`].
+    pub fn unchecked_request_exchange(
+        gt: &mut GtState,
+        user: &mut UserHeader,
+        vault: &mut GtExchangeVault,
+        exchange: &mut GtExchange,
+        amount: u64,
+    ) -> Result<()> {
+        gt.unchecked_request_exchange(user, vault, exchange, amount)
+    }
+
+    /// [`GtState::unchecked_confirm_exchange_vault`].
+    pub fn unchecked_confirm_exchange_vault(
+        gt: &mut GtState,
+        vault: &mut GtExchangeVault,
+    ) -> Result<u64> {
+        gt.unchecked_confirm_exchange_vault(vault)
+    }
+
+    /// [`GtExchangeVault::init`].
+    pub fn exchange_vault_init(
+        vault: &mut GtExchangeVault,
+        bump: u8,
+        store: &Pubkey,
+        time_window: u32,
+    ) -> Result<()> {
+        vault.init(bump, store, time_window)
+    }
+
+    /// [`GtExchange::init`].
+    pub fn exchange_init(
+        exchange: &mut GtExchange,
+        bump: u8,
+        owner: &Pubkey,
+        store: &Pubkey,
+        vault: &Pubkey,
+    ) -> Result<()> {
+        exchange.init(bump, owner, store, vault)
+    }
+}
